@@ -17,7 +17,7 @@ PROP = "C08"
 MANIFEST = dict(
    level="model_checking", design_ref="DESIGN.md 8 (C08), 7 (Arena)",
    technique="TLA+ model of the arena/controller/rings (TLC, all interleavings at yield-point granularity) + TLC-generated schedules replayed on the real code through cfg(kira_verif) yield points + TLC trace validation against the property-level monitor P_C08",
-   text="TLC explores every interleaving of the gameplay create path with the audio thread's remove-and-add step for both storage flavours against the property-level monitor (capacity accounting, count, prompt removal, destruction thread, stale ids) and structural invariants; TLC-generated schedules (random, directed witnesses, and the schedule that broke the code before the fix) are forced onto the real library through yield points and every recorded session is validated by TLC against P_C08. Exhaustive for small capacities/item counts, sampled beyond.",
+   text="TLC explores every interleaving of the gameplay create path with the audio thread's remove-and-add step for both storage flavours against the property-level monitor (capacity accounting, count, prompt removal, destruction thread, stale ids) and structural invariants; TLC-generated schedules (random, directed witnesses, and the schedule that broke the code before the fix) are forced onto the real library through yield points and every recorded session is validated by TLC against P_C08. Exhaustive for small capacities/item counts, sampled beyond. Sequential histories run on ten arenas: main-track sounds, sounds and sub-tracks of a track (playing, paused throughout, or a spatial track; the parent built with two different capacities), top-level sub-tracks, send tracks, clocks, modulators, listeners.",
    note="atomic_arena's try_reserve/free CAS loops are model-checked at access granularity for one reserving and one freeing thread (ArenaCtl.tla) and used as single steps in Arena.tla. Trusted: rtrb rings; SeqCst atomics. Racy replays target main-track sounds, clocks and modulators; the other five arenas run the same generic code and are covered by sequential histories. Listener count is not observable through the public API.")
 # (tsound_p / nested_p: sounds and sub-tracks of a parent track that is paused throughout - resources come and go all the same)
 KINDS = ["sound", "tsound", "subtrack", "nested", "send", "clock", "modulator", "listener", "tsound_p", "nested_p", "tsound_s", "nested_s"]   # _s: the parent is a spatial track
